@@ -132,6 +132,20 @@ def run(rep, tier, seed):
                 for s in steps:
                     rep.count('rewrite_' + s)
         cases.append((t, v))
+    # sibling groups that agree up to a nested group, one nested group being the beginning of the other (the order of two groups
+    # is decided by their operands from left to right, the shorter first): both orders of the siblings
+    from core import enc_str
+    def L(k):
+        return [0, [0, [enc_str(k), 0]]]
+    W = [0, [1, [enc_str('gpl'), 0], [enc_str('cp'), 1]]]
+    for op in (1, 2):
+        dual = 3 - op
+        for x in (L('x'), W):
+            for short, long_ in (([L('a'), L('b')], [L('a'), L('b'), L('c')]), ([L('a')] + [L('b')], [L('a'), L('b'), W])):
+                g1, g2 = [dual, [x, [op, short]]], [dual, [x, [op, long_]]]
+                for extra in ([], [L('zlib')]):
+                    cases.append(([op, [g1, g2] + extra], [op, extra + [g2, g1]]))
+                    cases.append(([op, [g2, g1] + extra], [op, [g1] + extra + [g2]]))
     reqs = []
     for t, v in cases:
         reqs.append((5, t))
